@@ -1845,6 +1845,37 @@ theorem LoopInv_step (h : Host) (b : Block) (h' : Host) (o : List Out) (hl : Loo
          | exact hl
          | (split <;> exact hl))
 
+/-- **no socket is ever opened behind a shutdown** on a tree whose `_async_setup` looks at `done` (`hfix`: the repair of R3-C17-a):
+`lateSockets = false` is preserved by every block -- the start-up block of an instance closed meanwhile shuts its endpoints down -/
+theorem lateSockets_step (hfix : Gen.Shutdown.startup_closes_when_done true = true) (h : Host) (b : Block) (h' : Host) (o : List Out)
+    (hl : h.lateSockets = false) (hs : step h b = some (h', o)) : h'.lateSockets = false := by
+  cases b <;> simp only [step] at hs <;> (repeat' split at hs) <;>
+    first
+    | (simp at hs; done)
+    | (simp only [Option.some.injEq, Prod.mk.injEq] at hs
+       obtain ⟨rfl, _⟩ := hs
+       first
+       | exact hl
+       | (split <;> exact hl)
+       | (simp only [closeBody, Host.setStage]; exact hl)
+       | (cases hd : h.done
+          · rw [zcClose_of_not_done h hd]; exact hl
+          · rw [zcClose_of_done h hd]; exact hl))
+    | (simp_all; done)
+
+theorem lateSockets_run (hfix : Gen.Shutdown.startup_closes_when_done true = true) (bs : List Block) : ∀ (h h' : Host) (o : List Out),
+    h.lateSockets = false → run h bs = some (h', o) → h'.lateSockets = false := by
+  induction bs with
+  | nil =>
+    intro h h' o hl hr
+    simp only [run, Option.some.injEq, Prod.mk.injEq] at hr
+    obtain ⟨rfl, _⟩ := hr
+    exact hl
+  | cons b rest ih =>
+    intro h h' o hl hr
+    obtain ⟨s1, o1, o2, h1, h2, _⟩ := run_cons h b rest h' o hr
+    exact ih s1 h' o2 (lateSockets_step hfix h b s1 o1 hl h1) h2
+
 /-- `NoLateStart` is preserved by every block: `startPending` never comes back, and only a pending start-up opens late sockets -/
 theorem NoLateStart_step (h : Host) (b : Block) (h' : Host) (o : List Out) (hn : NoLateStart h) (hs : step h b = some (h', o)) :
     NoLateStart h' := by
